@@ -307,6 +307,12 @@ def run_worker(pid: str, tier: str, seed: int, shard: int, nshards: int, deadlin
             except HarnessError as he:
                 state["harness"] = he
                 raise
+            stats.extra["_ncalls"] += 1
+            if stats.extra["_ncalls"] % 20 == 0:
+                # autograd graphs caught in reference cycles are few objects but much memory: do not wait for
+                # the generational collector's object-count thresholds
+                import gc
+                gc.collect()
             if state["best"] is None:
                 stats.record(task.name, case, v)
             if v.status != "violation":
